@@ -18,6 +18,7 @@ import (
 
 type Clause struct {
 	Kind string // requires ensures modifies invariant assert assume
+	Slow  bool   // discharged in the thorough tier only (tag slow)
 	Label string // optional stable name (tag id=...)
 	Reveal []string // recursive spec functions unfolded for this clause only (tag reveal=f)
 	Tags []string
@@ -171,12 +172,15 @@ func (S *Specs) LoadFile(path string, goFile bool) error {
 			}
 		}
 		label := ""
+		slow := false
 		var clauseReveal []string
 		{
 			var keep []string
 			for _, t := range tags {
 				if strings.HasPrefix(t, "id=") {
 					label = t[3:]
+				} else if t == "slow" {
+					slow = true
 				} else if strings.HasPrefix(t, "reveal=") {
 					clauseReveal = append(clauseReveal, t[7:])
 				} else {
@@ -186,7 +190,7 @@ func (S *Specs) LoadFile(path string, goFile bool) error {
 			tags = keep
 		}
 		mkClause := func(kind, text string) *Clause {
-			c := &Clause{Kind: kind, Tags: tags, Text: text, Src: src, Label: label, Reveal: clauseReveal}
+			c := &Clause{Kind: kind, Tags: tags, Text: text, Src: src, Label: label, Reveal: clauseReveal, Slow: slow}
 			last = c
 			return c
 		}
